@@ -69,6 +69,14 @@ def gen_cases(rng, tier):
                 mat = [[ploidy, 0, ploidy] for _ in range(n)]
                 mat[0][2] = ploidy - 1
             cases.append({"kind": "phased" if phased else "unphased", "ploidy": ploidy, "mat": mat})
+    # size-dependent paths (accumulator width, chunking): large populations, predicate only (see emit_case)
+    for n, phased in ((20000, False), (17000, True)) if tier == "quick" else ((20000, False), (17000, True), (70000, False), (33000, True)):
+        ploidy = 2
+        if phased:
+            mat = [[[1, 0, rng.randint(0, 1)] for _ in range(n)] for _ in range(ploidy)]
+        else:
+            mat = [[ploidy, 0, rng.randint(0, ploidy)] for _ in range(n)]
+        cases.append({"kind": "phased" if phased else "unphased", "ploidy": ploidy, "mat": mat, "big": True})
     for _ in range(N):
         phased = rng.random() < 0.5
         n = rng.choice(sizes) if rng.random() < 0.7 else rng.randint(1, 12)
@@ -139,6 +147,8 @@ def _fh(h): return float.fromhex(h)
 def emit_case(case, out):
     if "exc" in out:
         return "false"
+    if case.get("big"):
+        return None            # a 20000-row literal is too large for a shard; the independent predicate decides these
     Z, fh = E.z, lambda h: E.fhex(_fh(h))
     q = lambda h: E.q(Fraction(_fh(h)))
     mat = case["mat"]; ploidy = case["ploidy"]
